@@ -17,10 +17,11 @@ import Driver.Handlers.Html
 import Driver.Handlers.Query
 import Driver.Handlers.MergeGraph
 import Driver.Handlers.Cache
+import Driver.Handlers.Merge
 namespace Driver
 
 def handlers : List (String → List String → Option String) :=
-  [handleDates, handleSimilarity, handleMatch, handleDateParse, handleDecoder, handleDiff, handleResolve, handleWarnings, handleEqual, handleLiving, handleHtml, handleQuery, handleMergeGraph, handleCache]
+  [handleDates, handleSimilarity, handleMatch, handleDateParse, handleDecoder, handleDiff, handleResolve, handleWarnings, handleEqual, handleLiving, handleHtml, handleQuery, handleMergeGraph, handleCache, handleMerge]
 
 def respond (line : String) : String :=
   match line.splitOn " " with
